@@ -1,14 +1,16 @@
 import IsoVerif.Driver.Core
 import IsoVerif.Model.Resume
+import IsoVerif.Model.ResumePool
+import IsoVerif.Model.ResumeMulti
 
 namespace IsoVerif.Driver.C07
 open Lean IsoVerif.Driver IsoVerif.Model.Resume
 
 def streamName : Stream → String
-  | .bed => "bed" | .assign => "assign" | .gtf => "gtf" | .r2t => "r2t" | .ext => "ext"
+  | .bed => "bed" | .assign => "assign" | .gtf => "gtf" | .r2t => "r2t" | .ext => "ext" | .sq => "sq"
   | .gene => "gene" | .tr => "tr" | .model => "model" | .geneG => "geneG" | .trG => "trG" | .modelG => "modelG"
 
-def allStreams : List Stream := [.bed, .assign, .gtf, .r2t, .ext, .gene, .tr, .model, .geneG, .trG, .modelG]
+def allStreams : List Stream := [.bed, .assign, .gtf, .r2t, .ext, .sq, .gene, .tr, .model, .geneG, .trG, .modelG]
 
 def streamOf (s : String) : Except String Stream :=
   match allStreams.find? (fun x => streamName x == s) with
@@ -93,7 +95,8 @@ def jBoolD (j : Json) (k : String) (d : Bool) : Except String Bool :=
 
 def jVariant (j : Json) : Except String Variant := do
   pure ⟨← jBool (← arg j "flushBeforeLock"), ← jBool (← arg j "dropProcessed"), ← jBool (← arg j "locksFirst"),
-        ← jBool (← arg j "countUnaligned"), ← jBoolD j "cleanBeforeParams" true, ← jBoolD j "dropAtDumpPrefix" true⟩
+        ← jBool (← arg j "countUnaligned"), ← jBoolD j "cleanBeforeParams" true, ← jBoolD j "dropAtDumpPrefix" true,
+        ← jBoolD j "flushSqanti" true, ← jBoolD j "resetCounter" true⟩
 
 def jRG (j : Json) : Except String RG := do
   match (← jStr j) with
@@ -106,7 +109,8 @@ def jCfg (j : Json) : Except String Cfg := do
   pure { chrs := ← jList jNat (← arg j "chrs"), mchrs := ← jList jNat (← arg j "mchrs"),
          bchrs := ← jList jNat (← arg j "bchrs"), genedb := ← jBool (← arg j "genedb"), rg := ← jRG (← arg j "rg"),
          keepTmp := ← jBool (← arg j "keepTmp"), unmapped := ← jBool (← arg j "unmapped"),
-         fromSaves := ← jBoolD j "fromSaves" false }
+         fromSaves := ← jBoolD j "fromSaves" false, sqanti := ← jBoolD j "sqanti" false,
+         carried := ← jBoolD j "carried" false }
 
 /-- a file system given as a list of [path, token] -/
 def jFS (j : Json) : Except String FS := do
@@ -130,7 +134,98 @@ def ofVerdict : Verdict → Json
 def ofRes (cfg : Cfg) (r : Res) : Json :=
   Json.mkObj [("evs", ofList ofEv r.evs), ("ok", ofBool r.ok), ("fs", ofFS cfg r.fs)]
 
+/-! ### process pool (Model/ResumePool.lean) -/
+
+/-- the phases of a pool run one by one: (phase, file system at its start, its result) -/
+def phaseTrace : List Phase → FS → List (Phase × FS × Res)
+  | [], _ => []
+  | p :: ps, fs =>
+      let r := runPhase p fs
+      (p, fs, r) :: (if r.ok then phaseTrace ps r.fs else [])
+
+def ofPhase : Phase × FS × Res → Json
+  | (.seq _, _, r) => Json.mkObj [("kind", ofStr "seq"), ("evs", ofList ofEv r.evs), ("ok", ofBool r.ok)]
+  | (.pool task cs sc, fs, r) =>
+      Json.mkObj [("kind", ofStr "pool"), ("evs", ofList ofEv r.evs), ("ok", ofBool r.ok),
+                  ("workers", ofNat (workersNeeded task cs sc fs)),
+                  ("tasks", ofList (fun c => Json.arr #[ofNat c, ofList ofEv (taskEvents task cs fs c),
+                                                          ofBool (runActs (task c fs) fs).ok]) cs)]
+
+def ofPoolRes (v : Variant) (cfg : Cfg) (ord : List Path) (resume : Bool) (s1 s2 : List Nat) (fs : FS) : Json :=
+  let r := runPool v cfg ord resume s1 s2 fs
+  let tr := phaseTrace (.seq (forceClean v cfg resume) :: phases v cfg ord resume (resume && fs.has .lock) s1 s2) fs
+  Json.mkObj [("evs", ofList ofEv r.evs), ("ok", ofBool r.ok), ("fs", ofFS cfg r.fs), ("phases", ofList ofPhase tr)]
+
+def jSched (j : Json) (k : String) : Except String (List Nat) :=
+  match j.getObjVal? k with
+  | .ok v => jList jNat v
+  | .error _ => pure []
+
+/-! ### several experiments in one invocation (Model/ResumeMulti.lean) -/
+
+def ofMEv (x : MEv) : Json := Json.arr #[ofNat x.1, ofEv x.2]
+
+/-- the folders of all experiments: [experiment, path, token]; `.params` once (experiment 0) -/
+def ofMFS (exps : List Exp) (m : MFS) : Json :=
+  Json.arr (((m.params.map (fun t => Json.arr #[ofNat 0, ofPath .params, ofTok t])).toList ++
+    exps.flatMap (fun x => ((allPaths x.2.1).filter (fun p => p != Path.params)).filterMap
+      (fun p => (m.dirs x.1 p).map (fun t => Json.arr #[ofNat x.1, ofPath p, ofTok t])))).toArray)
+
+def ofMRes (exps : List Exp) (r : MRes) : Json :=
+  Json.mkObj [("evs", ofList ofMEv r.evs), ("ok", ofBool r.ok), ("fs", ofMFS exps r.fs)]
+
 def ops : List (String × Handler) := [
+  -- one invocation with several experiments in a fresh output folder (`carried` is set by the model: mkExps)
+  ("multiRun", fun j => do
+      let v ← jVariant (← arg j "variant")
+      let cfgs ← jList jCfg (← arg j "cfgs")
+      let ords ← jList (jList jPath) (← arg j "ords")
+      let exps := mkExps cfgs ords
+      pure (ofMRes exps (runMulti v exps false MFS.empty))),
+  -- killed after k events, resumed (directory orders ords2): verdict, files at the kill, the resumed invocation
+  ("multiVerdict", fun j => do
+      let v ← jVariant (← arg j "variant")
+      let cfgs ← jList jCfg (← arg j "cfgs")
+      let ords ← jList (jList jPath) (← arg j "ords")
+      let ords2 ← jList (jList jPath) (← arg j "ords2")
+      let k ← jNat (← arg j "k")
+      let exps := mkExps cfgs ords
+      let exps2 := mkExps cfgs ords2
+      let crash := crashMulti v exps MFS.empty k
+      pure (Json.mkObj [("verdict", ofVerdict (verdictMulti v exps exps2 MFS.empty k)), ("crash", ofMFS exps crash),
+                        ("resumed", ofMRes exps2 (runMulti v exps2 true crash))])),
+  -- one pool run from a given file system: schedules s1 (collection) / s2 (model construction); the result lists the
+  -- phases (main-process stage / parallel stage with the event list of every task)
+  ("poolRun", fun j => do
+      let v ← jVariant (← arg j "variant")
+      let cfg ← jCfg (← arg j "cfg")
+      let ord ← jList jPath (← arg j "ord")
+      let resume ← jBool (← arg j "resume")
+      let fs ← jFS (← arg j "fs")
+      pure (ofPoolRes v cfg ord resume (← jSched j "s1") (← jSched j "s2") fs)),
+  -- file system after the first k events of the pool run started on fs0
+  ("poolCrash", fun j => do
+      let v ← jVariant (← arg j "variant")
+      let cfg ← jCfg (← arg j "cfg")
+      let ord ← jList jPath (← arg j "ord")
+      let k ← jNat (← arg j "k")
+      let fs0 ← jFS0 j
+      pure (ofFS cfg (crashFSPool v cfg ord (← jSched j "s1") (← jSched j "s2") fs0 k))),
+  -- pool run on fs0 (schedules s1 s2) killed after k events, resumed (directory order ord2, schedules r1 r2):
+  -- verdict + the resumed run with its phases
+  ("poolVerdict", fun j => do
+      let v ← jVariant (← arg j "variant")
+      let cfg ← jCfg (← arg j "cfg")
+      let ord ← jList jPath (← arg j "ord")
+      let ord2 ← jList jPath (← arg j "ord2")
+      let k ← jNat (← arg j "k")
+      let fs0 ← jFS0 j
+      let s1 ← jSched j "s1"
+      let s2 ← jSched j "s2"
+      let r1 ← jSched j "r1"
+      let r2 ← jSched j "r2"
+      pure (Json.mkObj [("verdict", ofVerdict (verdictPoolFrom v cfg ord ord2 s1 s2 r1 r2 fs0 k)),
+                        ("resumed", ofPoolRes v cfg ord2 true r1 r2 (crashFSPool v cfg ord s1 s2 fs0 k))])),
   -- one run from a given file system
   ("run", fun j => do
       let v ← jVariant (← arg j "variant")
